@@ -38,16 +38,25 @@ void RunLengthDecoder::Decode(DmxBuffer *dst,
   dst->Reset();
   unsigned int i = 0;
   const uint8_t *value = src_data;
+  const uint8_t *end = src_data + length;
   uint8_t count;
-  while (i < DMX_UNIVERSE_SIZE && value < src_data + length) {
+  while (i < DMX_UNIVERSE_SIZE && value < end) {
     switch (*value) {
       case REPEAT_VALUE:
+        // the count and the value have to be part of the data
+        if (end - value < 3) {
+          return;
+        }
         value++;
         count = *(value++);
         dst->SetRangeToValue(i, *value, count);
         i+= count;
         break;
       case ESCAPE_VALUE:
+        // the escaped value has to be part of the data
+        if (end - value < 2) {
+          return;
+        }
         value++;
         // fall through
         OLA_FALLTHROUGH
